@@ -28,12 +28,14 @@ type vpKConn struct {
 	proto   string
 	host    string
 	written [][]byte
-	reply   []byte
+	reply   []byte // the bytes on the wire
+	payload []byte // the Kerberos reply itself
 	rerr    bool // silence / reset: the read fails (deadline) instead of delivering a reply
 	rpos    int
 	closed  bool
 	werr    bool
 	readDeadline bool // a read deadline is in force (SetDeadline / SetReadDeadline)
+	closesAfterReply bool // TCP only: the KDC closes the connection after its reply
 }
 
 func (c *vpKConn) Read(b []byte) (int, error) {
@@ -48,7 +50,21 @@ func (c *vpKConn) Read(b []byte) (int, error) {
 		return 0, errors.New("vp: i/o timeout")
 	}
 	if c.rpos >= len(c.reply) {
-		return 0, io.EOF
+		if c.closesAfterReply {
+			return 0, io.EOF
+		}
+		// the KDC keeps a TCP connection open after its reply (MIT krb5kdc, Active Directory), and a UDP
+		// socket never reports an end: a further read ends only by the deadline or by Close
+		for !c.readDeadline && !c.closed {
+			if !vpSymbolic() {
+				vpBlockForever()
+			}
+			vpWaitProgress()
+		}
+		if c.closed {
+			return 0, errors.New("vp: use of closed network connection")
+		}
+		return 0, errors.New("vp: i/o timeout")
 	}
 	avail := c.reply[c.rpos:]
 	if c.proto == "tcp" && c.rpos == 0 && len(avail) > 1 && vpSplitReplies {
@@ -56,7 +72,11 @@ func (c *vpKConn) Read(b []byte) (int, error) {
 		avail = avail[:vpIntRange("first-read-of-reply-"+c.host, 1, len(avail))]
 	}
 	n := copy(b, avail)
-	c.rpos += n
+	if c.proto == "udp" {
+		c.rpos = len(c.reply) // one read takes the whole datagram (what does not fit is lost)
+	} else {
+		c.rpos += n
+	}
 	return n, nil
 }
 
@@ -146,7 +166,14 @@ func vpNetDial(network, address string) (net.Conn, error) {
 		c.rerr = vpBool("silent-" + k)
 	}
 	if !c.rerr {
-		c.reply = vpBytesN("reply-"+k, 3)
+		c.payload = vpBytesN("reply-"+k, 3)
+		if network == "tcp" {
+			// a KDC's reply over TCP carries its 4-byte big-endian length (RFC 4120 7.2.2)
+			c.reply = append([]byte{0, 0, 0, 3}, c.payload...)
+			c.closesAfterReply = vpAlwaysReply || vpBool("kdc-closes-after-reply-"+k)
+		} else {
+			c.reply = c.payload
+		}
 	}
 	vpConns = append(vpConns, c)
 	return c, nil
@@ -304,16 +331,13 @@ func VP_C20_index() {
 
 // vpWantReply: what the proxy must hand back for a reply received from connection c.
 func vpWantReply(c *vpKConn) []byte {
-	if c.proto == "udp" {
-		n := uint32(len(c.reply))
-		return append([]byte{byte(n >> 24), byte(n >> 16), byte(n >> 8), byte(n)}, c.reply...)
-	}
-	return c.reply
+	n := uint32(len(c.payload))
+	return append([]byte{byte(n >> 24), byte(n >> 16), byte(n >> 8), byte(n)}, c.payload...)
 }
 
 //vp:property C20 C10
 //vp:set kmax 2 3
-//vp:bounds 1..kmax UDP and 1..kmax TCP KDCs; each KDC independently: refuses the connection / write fails / stays silent (read error) / replies 3 arbitrary bytes (a TCP reply may arrive in two reads, split anywhere); embedded message: 4-byte prefix + 2 symbolic bytes, or any 0..4 bytes (shorter than the prefix); POST with valid DER, realm "R"
+//vp:bounds 1..kmax UDP and 1..kmax TCP KDCs; each KDC independently: refuses the connection / write fails / stays silent (read error) / replies 3 arbitrary bytes (over TCP behind their 4-byte length, possibly in two reads split anywhere, after which the KDC closes the connection or keeps it open; over UDP as one datagram); embedded message: 4-byte prefix + 2 symbolic bytes, or any 0..4 bytes (shorter than the prefix); POST with valid DER, realm "R"
 //vp:assume every started reader eventually sends (the 5 s deadline); goroutines run when the handler blocks (no interleaving exploration)
 //vp:reach replied noreply
 func VP_C20_relay() {
